@@ -660,13 +660,15 @@ impl SymbolTable {
                     add_label(&mut label_map, label, 0, true)?;
                 }
                 StmtKind::Directive(Directive::Fill(PCOffset::Label(label))) => {
+                    // The label may only be declared external further down the file,
+                    // so every `.fill LABEL` is noted here and the entries whose label
+                    // did not turn out to be external are dropped after this pass.
                     let label_text = label.name.to_uppercase();
-                    if let Some(SymbolData { external: true, .. }) = label_map.get(&label_text) {
-                        let Some(cur) = cursor.as_ref() else {
+                    match cursor.as_ref() {
+                        Some(cur) => { rel_map.insert(cur.lc, label_text); },
+                        None => if let Some(SymbolData { external: true, .. }) = label_map.get(&label_text) {
                             return Err(AsmErr::new(AsmErrKind::UndetAddrStmt, stmt.span.clone()));
-                        };
-
-                        rel_map.insert(cur.lc, label_text);
+                        }
                     }
                 },
                 _ => {}
@@ -695,6 +697,9 @@ impl SymbolTable {
         if let Some(cur) = cursor {
             return Err(AsmErr::new(AsmErrKind::UnclosedOrig, cur.block_orig));
         }
+
+        // Only `.fill`s of external labels need relocating.
+        rel_map.retain(|_, label| label_map.get(label).is_some_and(|data| data.external));
         
         let debug_symbols = debug_sym.map(|(lines, src_info)| DebugSymbols {
             line_map: LineSymbolMap::new(lines)
